@@ -18,10 +18,17 @@
 // structures first diverged (it never produces a verdict itself).
 // Arities: Callback.hpp has nine separate copies of emit() (0..8 arguments, each with its own slot-iteration loop) and nine connect()/disconnect()
 // templates. The harness emitter class has nine signals sig0..sig8 and the listener class two slots per arity (a0/b0 .. a8/b8, bK virtual). The model keeps
-// two signal *indexes* per emitter object; which of the nine signals stands behind index 0 and 1 is drawn per emitter object (two distinct arities from
-// 0..8; recreated emitters draw again), so one program mixes arities across emitters and the same signal key lives on several emitters. An emission with
+// signal *indexes* per emitter object; which of the signals stands behind an index is drawn per emitter object (recreated emitters draw again; see
+// "Twin signals" below), so one program mixes arities across emitters and the same signal key lives on several emitters. An emission with
 // sequence number q passes the value q*16+p as argument p (types by position: Elem, long, int, Elem, u64, double, const Elem&, const long*); every slot
 // compares every argument it received. Per-arity observation counters are kept locally and flushed at the end (emit/connect/disconnect/invoked/... _arity_K).
+// Twin signals: every arity has a SECOND signal member with the same signature (sigKb next to sigK, 18 signal keys in all) and every emitter object has three
+// signal indexes (the generator uses the first NS = 1..3 of them). Which signal stands behind an index is drawn per emitter object from the seeded stream
+// (drawSignals): an index is either a fresh arity or the twin of an earlier index, and a case may restrict the arities to a palette of 2..3 so that several
+// emitters carry signals of the same arity. The listener slots aK/bK fit both sigK and sigKb, hence the SAME listener slot gets connected to two different
+// signals of ONE emitter and to same-arity signals of different emitters. The listener keeps one (signal, slot) list per emitter for all of that emitter's
+// signals: the listener-side walker compares it per emitter AND signal AND slot, the emitter-side walker per signal (counters same_slot_on_two_signals_of_one_emitter,
+// disconnect_slot_also_on_other_signal_of_emitter, ... and the set signal_event).
 // modes: programs (random programs, replay: --start <idx> --cases 1; --start -1 replays the scripted regression scenarios, each for every arity),
 //        exhMN (every program of the small-scope space 2*8^M*10^N on the 0-argument signal, see exhaustivePrograms),
 //        exhMNx (the same space for each of the nine arities: case index = program*9 + arity), --probe <key> for the two confirmed defects.
@@ -31,7 +38,7 @@
 using namespace vh;
 
 // ------------------------------------------------------------------------------------------------ harness classes
-enum { NAR = 9 };   // arities 0..8
+enum { NAR = 9, NSIGS = 2 * NAR };   // arities 0..8; signal id = arity * 2 + variant (variant 1 = the twin member sigKb with the same signature as sigK)
 static void onSlot(void* self, int arity, int which, const long* vals);
 static inline long argVal(long seq, int p) { return seq * 16 + p; }   // value of argument p of the emission with sequence number seq
 static inline long useElem(const Elem& a) { ElemReg::onUse(&a, a.id, "slot-argument"); return a.id; }
@@ -90,8 +97,11 @@ struct Em : Callback::Emitter {
   explicit Em(long t) : tag(t) {}
   // fireK never touches *this after emit returns: the emitter may have been deleted by a slot (the argument locals live in fireK's own frame)
   void sig0() {}
+  void sig0b() {}
   void fire0(long) { emit<Em>(&Em::sig0); }
-#define EM_MEMBERS(K) void sig##K(TL##K) {} void fire##K(long seq) { DL##K emit<Em, TL##K>(&Em::sig##K, AL##K); }
+  void fire0b(long) { emit<Em>(&Em::sig0b); }
+#define EM_MEMBERS(K) void sig##K(TL##K) {} void fire##K(long seq) { DL##K emit<Em, TL##K>(&Em::sig##K, AL##K); } \
+                      void sig##K##b(TL##K) {} void fire##K##b(long seq) { DL##K emit<Em, TL##K>(&Em::sig##K##b, AL##K); }
   FOR_ARITIES_1_8(EM_MEMBERS)
 #undef EM_MEMBERS
 };
@@ -107,20 +117,20 @@ struct Li : Pad, Callback::Listener {
 #undef LI_SLOTS
 };
 
-#define NAMES(K) "sig" #K,
-static const char* const SIGN9[NAR] = { FOR_ARITIES(NAMES) };
+#define NAMES(K) "sig" #K, "sig" #K "b",
+static const char* const SIGN18[NSIGS] = { FOR_ARITIES(NAMES) };   // by signal id
 #undef NAMES
 #define NAMES(K) { "a" #K, "b" #K },
 static const char* const SLOTN9[NAR][2] = { FOR_ARITIES(NAMES) };
 #undef NAMES
 
-static Callback::MemberFuncPtr sigKey(int k) {
-  switch (k) {
-#define CASE(K) case K: return Callback::MemberFuncPtr(&Em::sig##K);
+static Callback::MemberFuncPtr sigKey(int sid) {
+  switch (sid) {
+#define CASE(K) case 2 * K: return Callback::MemberFuncPtr(&Em::sig##K); case 2 * K + 1: return Callback::MemberFuncPtr(&Em::sig##K##b);
   FOR_ARITIES(CASE)
 #undef CASE
   }
-  harnessBug("sigKey: arity %d", k);
+  harnessBug("sigKey: signal id %d", sid);
 }
 static Callback::MemberFuncPtr slotKey(int k, int which) {
   switch (k) {
@@ -130,33 +140,35 @@ static Callback::MemberFuncPtr slotKey(int k, int which) {
   }
   harnessBug("slotKey: arity %d", k);
 }
-static void realConnect(Em* e, int k, Li* l, int which) {
-  switch (k) {
-#define CASE(K) case K: if (which == 0) Callback::connect(e, &Em::sig##K, l, &Li::a##K); else Callback::connect(e, &Em::sig##K, l, &Li::b##K); return;
+static void realConnect(Em* e, int sid, Li* l, int which) {
+  switch (sid) {
+#define CASE(K) case 2 * K: if (which == 0) Callback::connect(e, &Em::sig##K, l, &Li::a##K); else Callback::connect(e, &Em::sig##K, l, &Li::b##K); return; \
+                case 2 * K + 1: if (which == 0) Callback::connect(e, &Em::sig##K##b, l, &Li::a##K); else Callback::connect(e, &Em::sig##K##b, l, &Li::b##K); return;
   FOR_ARITIES(CASE)
 #undef CASE
   }
-  harnessBug("realConnect: arity %d", k);
+  harnessBug("realConnect: signal id %d", sid);
 }
-static void realDisconnect(Em* e, int k, Li* l, int which) {
-  switch (k) {
-#define CASE(K) case K: if (which == 0) Callback::disconnect(e, &Em::sig##K, l, &Li::a##K); else Callback::disconnect(e, &Em::sig##K, l, &Li::b##K); return;
+static void realDisconnect(Em* e, int sid, Li* l, int which) {
+  switch (sid) {
+#define CASE(K) case 2 * K: if (which == 0) Callback::disconnect(e, &Em::sig##K, l, &Li::a##K); else Callback::disconnect(e, &Em::sig##K, l, &Li::b##K); return; \
+                case 2 * K + 1: if (which == 0) Callback::disconnect(e, &Em::sig##K##b, l, &Li::a##K); else Callback::disconnect(e, &Em::sig##K##b, l, &Li::b##K); return;
   FOR_ARITIES(CASE)
 #undef CASE
   }
-  harnessBug("realDisconnect: arity %d", k);
+  harnessBug("realDisconnect: signal id %d", sid);
 }
-static void realEmit(Em* e, int k, long seq) {
-  switch (k) {
-#define CASE(K) case K: e->fire##K(seq); return;
+static void realEmit(Em* e, int sid, long seq) {
+  switch (sid) {
+#define CASE(K) case 2 * K: e->fire##K(seq); return; case 2 * K + 1: e->fire##K##b(seq); return;
   FOR_ARITIES(CASE)
 #undef CASE
   }
-  harnessBug("realEmit: arity %d", k);
+  harnessBug("realEmit: signal id %d", sid);
 }
 // the model identifies signals and slots by their keys: all of them must be pairwise distinct
 static void checkKeysDistinct() {
-  for (int a = 0; a < NAR; ++a) for (int b = a + 1; b < NAR; ++b) if (sigKey(a) == sigKey(b)) harnessBug("signal keys of sig%d and sig%d coincide", a, b);
+  for (int a = 0; a < NSIGS; ++a) for (int b = a + 1; b < NSIGS; ++b) if (sigKey(a) == sigKey(b)) harnessBug("signal keys of %s and %s coincide", SIGN18[a], SIGN18[b]);
   for (int a = 0; a < 2 * NAR; ++a) for (int b = a + 1; b < 2 * NAR; ++b) if (slotKey(a / 2, a % 2) == slotKey(b / 2, b % 2)) harnessBug("slot keys %s and %s coincide", SLOTN9[a / 2][a % 2], SLOTN9[b / 2][b % 2]);
 }
 
@@ -167,7 +179,18 @@ static const char* const AEN[NAE] = { "emit", "emit_recursive", "connect", "conn
                                       "passed_over_connected_during_emission", "pending_slot_dropped_before_its_turn", "emission_ended_by_emitter_destruction" };
 static long g_ar[NAR][NAE];
 static inline void arEv(int k, int ev, long n = 1) { g_ar[k][ev] += n; }
+// per-signal observations (18 signal keys): which signal members were emitted / connected / disconnected / reached a slot
+enum SgEv { SE_EMIT = 0, SE_CONNECT, SE_DISCONNECT, SE_INVOKED, NSE };
+static const char* const SEN[NSE] = { "emit", "connect", "disconnect", "invoked" };
+static long g_sg[NSIGS][NSE];
+static inline void sgEv(int sid, int ev) { ++g_sg[sid][ev]; }
 static void flushArityStats() {
+  for (int sid = 0; sid < NSIGS; ++sid) for (int ev = 0; ev < NSE; ++ev) {
+    if (!g_sg[sid][ev]) continue;
+    char it[96]; snprintf(it, sizeof it, "%s/%s", SIGN18[sid], SEN[ev]); setItem("signal_event", it);
+    if (sid & 1) { char nm[96]; snprintf(nm, sizeof nm, "%s_twin_signal", SEN[ev]); cnt(nm, g_sg[sid][ev]); }
+    g_sg[sid][ev] = 0;
+  }
   for (int k = 0; k < NAR; ++k) for (int ev = 0; ev < NAE; ++ev) {
     if (!g_ar[k][ev]) continue;
     char nm[96]; snprintf(nm, sizeof nm, "%s_arity_%d", AEN[ev], k); cnt(nm, g_ar[k][ev]);
@@ -179,12 +202,12 @@ static void flushArityStats() {
 }
 
 // ------------------------------------------------------------------------------------------------ model
-enum { MAXE = 3, MAXL = 4 };
+enum { MAXE = 3, MAXL = 4, MAXS = 3 };   // MAXS = signal indexes per emitter object
 enum Why { W_LIVE = 0, W_DISC_QUIESCENT, W_DISC_EMITTING, W_LISTENER_DESTROYED, W_EMITTER_DESTROYED };
 struct LiM { int idx; long gen; Li* obj; bool live; };
 struct Rec { LiM* l; int which; u64 serial; bool live; int why; u64 diedAt; };
-struct EmM { int idx; long gen; Em* obj; bool live; int ar[2]; int depth[2]; u64 outerStart[2]; Vec<Rec> recs[2]; };   // ar[s] = arity (= which of sig0..sig8) behind signal index s
-#define SN(e, sig) SIGN9[(e)->ar[sig]]
+struct EmM { int idx; long gen; Em* obj; bool live; int sid[MAXS]; int ar[MAXS]; int depth[MAXS]; u64 outerStart[MAXS]; Vec<Rec> recs[MAXS]; };   // sid[s] = signal id (which of the 18 signal members) behind signal index s, ar[s] = sid[s] / 2 = its arity
+#define SN(e, sig) SIGN18[(e)->sid[sig]]
 #define LN(e, sig, which) SLOTN9[(e)->ar[sig]][which]
 struct Frame { EmM* e; int sig; size_t pos; long arg; long invoked; u64 startClock; };
 struct SlotCtx { EmM* e; int sig; LiM* l; int which; };
@@ -206,6 +229,9 @@ struct G {
   u64 fp; long invocations, nestedActions, maxDepthSeen;
   void (*script)(const SlotCtx&);
   int fixedAr;   // >= 0: every emitter gets this arity behind signal index 0 (exhaustive programs, scripted scenarios); -1: drawn per emitter object
+  bool fixedTwin; // with fixedAr >= 0: signal index 1 is the twin signal of the same arity (sigKb) instead of the next arity
+  int pal[NAR], npal;   // arities the emitters of this case draw from (all nine, or a palette of 2..3 so that several emitters carry same-arity signals)
+  int twinNum;    // drawSignals: chance twinNum/4 that a signal index becomes the twin of an earlier index
   char suspectCtx[128]; char suspectMsg[256]; bool suspect;
   const char* topAction;
 };
@@ -234,7 +260,20 @@ static EmM* liveEmitterAt(Callback::Emitter* p) { for (int i = 0; i < g.NE; ++i)
 static EmM* randLiveE() { EmM* c[MAXE]; int n = 0; for (int i = 0; i < g.NE; ++i) if (g.em[i] && g.em[i]->live) c[n++] = g.em[i]; return n ? c[g.r.below((u64)n)] : 0; }
 static LiM* randLiveL() { LiM* c[MAXL]; int n = 0; for (int i = 0; i < g.NL; ++i) if (g.li[i] && g.li[i]->live) c[n++] = g.li[i]; return n ? c[g.r.below((u64)n)] : 0; }
 static size_t liveCount(EmM* e, int sig) { size_t n = 0; for (size_t i = 0; i < e->recs[sig].n; ++i) if (e->recs[sig][i].live) ++n; return n; }
-static bool anyEmitting(EmM* e) { return e->depth[0] > 0 || e->depth[1] > 0; }
+static bool anyEmitting(EmM* e) { for (int s = 0; s < MAXS; ++s) if (e->depth[s] > 0) return true; return false; }
+static int sigIndexOfKey(EmM* e, const Callback::MemberFuncPtr& key) { for (int s = 0; s < MAXS; ++s) if (key == sigKey(e->sid[s])) return s; return -1; }
+// live connections of slot (l, which-of-arity) to signals of e other than signal index sig: the same listener slot on another signal of the same emitter
+static long liveOnOtherSignals(EmM* e, int sig, LiM* l, int which) {
+  long n = 0;
+  for (int s = 0; s < MAXS; ++s) if (s != sig && e->ar[s] == e->ar[sig]) { const Vec<Rec>& v = e->recs[s]; for (size_t q = 0; q < v.n; ++q) if (v[q].live && v[q].l == l && v[q].which == which) ++n; }
+  return n;
+}
+// ... and to same-arity signals of other live emitters
+static long liveOnOtherEmitters(EmM* e, int sig, LiM* l, int which) {
+  long n = 0;
+  for (int i = 0; i < g.NE; ++i) { EmM* o = g.em[i]; if (!o || !o->live || o == e) continue; for (int s = 0; s < MAXS; ++s) if (o->ar[s] == e->ar[sig]) { const Vec<Rec>& v = o->recs[s]; for (size_t q = 0; q < v.n; ++q) if (v[q].live && v[q].l == l && v[q].which == which) ++n; } }
+  return n;
+}
 
 // next record the emission frame F must invoke, or NPOS
 static size_t nextExpected(const Frame& F) {
@@ -259,14 +298,14 @@ static void noteSkipped(const Frame& F, size_t from, size_t to) {
 // returns 0 when the structures match, otherwise a short stable kind; msg gets the details.
 // strict (quiescent): no activation, not dirty, every record connected, emitter-side sequence == model's live sequence.
 // relaxed (inside emissions, attribution only): records in state disconnected are ignored, connecting is expected for records younger than the outermost emission.
-static long g_recordsCompared = 0;
+static long g_recordsCompared = 0, g_twinStatesWalked = 0;   // g_twinStatesWalked: listener-side comparisons made while that listener slot was connected to two signals of the emitter
 static const char* walkEmitter(EmM* e, bool strict, char* msg, size_t msgsz) {
   Callback::Emitter& ce = *e->obj;
-  bool seen[2] = { false, false };
+  bool seen[MAXS]; for (int i = 0; i < MAXS; ++i) seen[i] = false;
   long guard = 0;
   for (Map<Callback::MemberFuncPtr, Callback::Emitter::SignalData>::Iterator it = ce.signalData.begin(); it != ce.signalData.end(); ++it) {
     if (++guard > 64) { snprintf(msg, msgsz, "E%d: signalData has more than 64 entries (cycle?)", e->idx); return "emitter-side-map-corrupt"; }
-    int sig = it.key() == sigKey(e->ar[0]) ? 0 : it.key() == sigKey(e->ar[1]) ? 1 : -1;
+    int sig = sigIndexOfKey(e, it.key());
     if (sig < 0 || seen[sig]) { snprintf(msg, msgsz, "E%d: signalData has an entry for an unknown or repeated signal key", e->idx); return "emitter-side-unknown-signal"; }
     seen[sig] = true;
     Callback::Emitter::SignalData& d = *it;
@@ -311,7 +350,7 @@ static const char* walkEmitter(EmM* e, bool strict, char* msg, size_t msgsz) {
     while (mp < v.n && !v[mp].live) ++mp;
     if (mp != v.n) { snprintf(msg, msgsz, "E%d.%s: live connection to L%d.%s has no record on the emitter side (%ld found)", e->idx, SN(e, sig), v[mp].l->idx, LN(e, sig, v[mp].which), n); return "emitter-side-missing-record"; }
   }
-  for (int sig = 0; sig < 2; ++sig) if (!seen[sig] && liveCount(e, sig)) { snprintf(msg, msgsz, "E%d.%s: %ld live connection(s) but no signalData entry", e->idx, SN(e, sig), (long)liveCount(e, sig)); return "emitter-side-missing-record"; }
+  for (int sig = 0; sig < MAXS; ++sig) if (!seen[sig] && liveCount(e, sig)) { snprintf(msg, msgsz, "E%d.%s: %ld live connection(s) but no signalData entry", e->idx, SN(e, sig), (long)liveCount(e, sig)); return "emitter-side-missing-record"; }
   return 0;
 }
 
@@ -323,12 +362,13 @@ static const char* walkListener(LiM* l, char* msg, size_t msgsz) {
     if (++guard > 100000) { snprintf(msg, msgsz, "L%d: slotData map does not end", l->idx); return "listener-side-map-corrupt"; }
     EmM* e = liveEmitterAt(it.key());
     List<Callback::Listener::Signal>& lst = *it;
-    long have[2][2] = { { 0, 0 }, { 0, 0 } }; long walked = 0;
+    long have[MAXS][2]; for (int i = 0; i < MAXS; ++i) have[i][0] = have[i][1] = 0;
+    long walked = 0;
     for (List<Callback::Listener::Signal>::Iterator s = lst.begin(); s != lst.end(); ++s) {
       if (++walked > 100000) { snprintf(msg, msgsz, "L%d: signal list does not end (cycle)", l->idx); return "listener-side-list-corrupt"; }
       ++g_recordsCompared;
       if (!e) { snprintf(msg, msgsz, "L%d: listener side still lists a connection to an emitter that was destroyed", l->idx); return "listener-side-record-for-destroyed-emitter"; }
-      int sig = s->signal == sigKey(e->ar[0]) ? 0 : s->signal == sigKey(e->ar[1]) ? 1 : -1;
+      int sig = sigIndexOfKey(e, s->signal);
       int wh = sig < 0 ? -1 : s->slot == slotKey(e->ar[sig], 0) ? 0 : s->slot == slotKey(e->ar[sig], 1) ? 1 : -1;
       if (wh < 0) { snprintf(msg, msgsz, "L%d: listener side lists an unknown (signal, slot) pair for E%d", l->idx, e->idx); return "listener-side-unknown-pair"; }
       ++have[sig][wh];
@@ -336,15 +376,26 @@ static const char* walkListener(LiM* l, char* msg, size_t msgsz) {
     if (!e) continue;   // stale key of a destroyed emitter with an empty list: describes no connection
     if (seenE[e->idx]) { snprintf(msg, msgsz, "L%d: two slotData entries for E%d", l->idx, e->idx); return "listener-side-map-corrupt"; }
     seenE[e->idx] = true;
-    for (int sig = 0; sig < 2; ++sig) for (int wh = 0; wh < 2; ++wh) {
-      long want = 0; const Vec<Rec>& v = e->recs[sig]; for (size_t q = 0; q < v.n; ++q) if (v[q].live && v[q].l == l && v[q].which == wh) ++want;
+    long wantAll[MAXS][2];
+    for (int sig = 0; sig < MAXS; ++sig) for (int wh = 0; wh < 2; ++wh) { long want = 0; const Vec<Rec>& v = e->recs[sig]; for (size_t q = 0; q < v.n; ++q) if (v[q].live && v[q].l == l && v[q].which == wh) ++want; wantAll[sig][wh] = want; }
+    // the listener keeps ONE list per emitter for all signals of that emitter: a record of this slot filed under another signal of the emitter than the one it
+    // is connected to (one signal has a record too many, a same-arity signal one too few for the same slot) is its own kind of divergence
+    for (int sig = 0; sig < MAXS; ++sig) for (int wh = 0; wh < 2; ++wh) if (have[sig][wh] > wantAll[sig][wh])
+      for (int s2 = 0; s2 < MAXS; ++s2) if (s2 != sig && e->ar[s2] == e->ar[sig] && have[s2][wh] < wantAll[s2][wh]) {
+        snprintf(msg, msgsz, "L%d: listener side lists %ld connection(s) E%d.%s -> %s (model: %ld live) but only %ld connection(s) E%d.%s -> %s (model: %ld live): a record of that slot is filed under the wrong signal of the emitter",
+                 l->idx, have[sig][wh], e->idx, SN(e, sig), LN(e, sig, wh), wantAll[sig][wh], have[s2][wh], e->idx, SN(e, s2), LN(e, s2, wh), wantAll[s2][wh]);
+        return "listener-side-record-under-wrong-signal";
+      }
+    for (int sig = 0; sig < MAXS; ++sig) for (int wh = 0; wh < 2; ++wh) {
+      long want = wantAll[sig][wh];
+      if (want) for (int s2 = sig + 1; s2 < MAXS; ++s2) if (e->ar[s2] == e->ar[sig] && wantAll[s2][wh]) ++g_twinStatesWalked;
       if (have[sig][wh] > want) { snprintf(msg, msgsz, "L%d: listener side lists %ld connection(s) E%d.%s -> %s, model has %ld live", l->idx, have[sig][wh], e->idx, SN(e, sig), LN(e, sig, wh), want); return "listener-side-stale-record"; }
       if (have[sig][wh] < want) { snprintf(msg, msgsz, "L%d: listener side lists %ld connection(s) E%d.%s -> %s, model has %ld live", l->idx, have[sig][wh], e->idx, SN(e, sig), LN(e, sig, wh), want); return "listener-side-missing-record"; }
     }
   }
   for (int i = 0; i < g.NE; ++i) {
     EmM* e = g.em[i]; if (!e || !e->live || seenE[e->idx]) continue;
-    for (int sig = 0; sig < 2; ++sig) { const Vec<Rec>& v = e->recs[sig]; for (size_t q = 0; q < v.n; ++q) if (v[q].live && v[q].l == l) { snprintf(msg, msgsz, "L%d: live connection E%d.%s -> %s but no slotData entry for that emitter", l->idx, e->idx, SN(e, sig), LN(e, sig, v[q].which)); return "listener-side-missing-record"; } }
+    for (int sig = 0; sig < MAXS; ++sig) { const Vec<Rec>& v = e->recs[sig]; for (size_t q = 0; q < v.n; ++q) if (v[q].live && v[q].l == l) { snprintf(msg, msgsz, "L%d: live connection E%d.%s -> %s but no slotData entry for that emitter", l->idx, e->idx, SN(e, sig), LN(e, sig, v[q].which)); return "listener-side-missing-record"; } }
   }
   return 0;
 }
@@ -390,11 +441,15 @@ static void actConnect(EmM* e, int sig, LiM* l, int which) {
   const char* cls = connClass(e, sig);
   setctxf("Callback.connect/%s", cls);
   size_t dup = 0; for (size_t q = 0; q < e->recs[sig].n; ++q) { const Rec& rc = e->recs[sig][q]; if (rc.live && rc.l == l && rc.which == which) ++dup; }
-  histf("connect(E%d.%s -> L%d.%s)%s", e->idx, SN(e, sig), l->idx, LN(e, sig, which), dup ? "   # duplicate" : "");
+  long twin = liveOnOtherSignals(e, sig, l, which), otherE = liveOnOtherEmitters(e, sig, l, which);
+  histf("connect(E%d.%s -> L%d.%s)%s%s", e->idx, SN(e, sig), l->idx, LN(e, sig, which), dup ? "   # duplicate" : "", twin ? "   # this slot is also connected to another signal of this emitter" : "");
   Rec rc; rc.l = l; rc.which = which; rc.serial = g.serial++; rc.live = true; rc.why = W_LIVE; rc.diedAt = 0;
   e->recs[sig].push(rc);
   ++g.clock;
-  realConnect(e->obj, e->ar[sig], l->obj, which);
+  realConnect(e->obj, e->sid[sig], l->obj, which);
+  sgEv(e->sid[sig], SE_CONNECT);
+  if (twin) { cnt("same_slot_on_two_signals_of_one_emitter"); if (e->depth[sig] > 0) cnt("same_slot_on_two_signals_of_one_emitter_signal_emitting"); }
+  if (otherE) cnt("same_slot_on_signals_of_two_emitters");
   arEv(e->ar[sig], AE_CONNECT); if (e->depth[sig] > 0) arEv(e->ar[sig], AE_CONNECT_SIGNAL_EMITTING);
   cnt("op_connect"); if (dup) cnt("op_connect_duplicate"); if (g.frames.n) cnt(e->depth[sig] > 0 ? "op_connect_signal_emitting" : "op_connect_in_slot");
   statMax("max_duplicate_multiplicity", (long)dup + 1);
@@ -410,10 +465,16 @@ static void actDisconnect(EmM* e, int sig, LiM* l, int which) {
   for (size_t q = 0; q < v.n; ++q) if (v[q].l == l && v[q].which == which) { if (v[q].live) { if (hit == NPOS) hit = q; ++dups; } else if (hit == NPOS) deadBefore = true; }
   // trigger condition of the (listed) finding: a disconnected record of the same slot, still pending physical removal, precedes the live one
   if (hit != NPOS && deadBefore && excluded(KEY_DISC)) { cnt("excluded_trigger_avoided"); return; }
-  histf("disconnect(E%d.%s -> L%d.%s)%s", e->idx, SN(e, sig), l->idx, LN(e, sig, which), hit == NPOS ? "   # not connected" : "");
+  // the same listener slot is connected to another signal of this emitter as well; olderTwin: that other connection was made first (its listener-side record comes first)
+  long twin = hit == NPOS ? 0 : liveOnOtherSignals(e, sig, l, which); bool olderTwin = false;
+  if (twin) for (int s = 0; s < MAXS; ++s) if (s != sig && e->ar[s] == e->ar[sig]) { const Vec<Rec>& o = e->recs[s]; for (size_t q = 0; q < o.n; ++q) if (o[q].live && o[q].l == l && o[q].which == which && o[q].serial < v[hit].serial) olderTwin = true; }
+  histf("disconnect(E%d.%s -> L%d.%s)%s%s", e->idx, SN(e, sig), l->idx, LN(e, sig, which), hit == NPOS ? "   # not connected" : "", twin ? "   # this slot stays connected to another signal of this emitter" : "");
   ++g.clock;
   if (hit != NPOS) { v[hit].live = false; v[hit].why = g.frames.n && e->depth[sig] > 0 ? W_DISC_EMITTING : W_DISC_QUIESCENT; v[hit].diedAt = g.clock; }
-  realDisconnect(e->obj, e->ar[sig], l->obj, which);
+  realDisconnect(e->obj, e->sid[sig], l->obj, which);
+  sgEv(e->sid[sig], SE_DISCONNECT);
+  if (twin) { cnt("disconnect_slot_also_on_other_signal_of_emitter"); if (olderTwin) cnt("disconnect_later_connected_of_two_signals_of_one_emitter"); if (e->depth[sig] > 0) cnt("disconnect_slot_also_on_other_signal_of_emitter_signal_emitting"); }
+  if (hit == NPOS && liveOnOtherSignals(e, sig, l, which)) cnt("disconnect_not_connected_slot_on_other_signal_of_emitter");
   arEv(e->ar[sig], AE_DISCONNECT); if (e->depth[sig] > 0) arEv(e->ar[sig], AE_DISCONNECT_SIGNAL_EMITTING);
   if (hit != NPOS && e->depth[sig] == 0) v.removeAt(hit);
   cnt("op_disconnect"); if (hit == NPOS) cnt("op_disconnect_not_connected"); if (dups > 1) cnt("op_disconnect_one_of_duplicates");
@@ -439,7 +500,8 @@ static void actEmit(EmM* e, int sig) {
   g.fp = mix(g.fp, 13 + (u64)e->idx * 7 + (u64)sig * 3 + (u64)depthNow() * 1000);
   Em* obj = e->obj;
   arEv(e->ar[sig], AE_EMIT); if (e->depth[sig] > 1) arEv(e->ar[sig], AE_EMIT_RECURSIVE);
-  realEmit(obj, e->ar[sig], arg);
+  sgEv(e->sid[sig], SE_EMIT);
+  realEmit(obj, e->sid[sig], arg);
   // obj may be deleted by now; only the model is consulted
   setctxf("%s", myctx);
   if (g.frames.n != fi + 1) harnessBug("frame stack unbalanced after emit");
@@ -468,18 +530,21 @@ static void actDestroyL(LiM* l, bool own) {
   // connEmitting: has live connections to a signal that is being emitted; deadBefore: one of them sits behind another record (pending-dead or a live
   // duplicate, which the destructor kills first) of the same slot - the trigger condition of the (listed) finding
   bool connEmitting = false, deadBefore = false;
-  for (int i = 0; i < g.NE; ++i) { EmM* e = g.em[i]; if (!e || !e->live) continue; for (int sig = 0; sig < 2; ++sig) if (e->depth[sig] > 0) { const Vec<Rec>& v = e->recs[sig]; for (size_t q = 0; q < v.n; ++q) if (v[q].live && v[q].l == l) { connEmitting = true; for (size_t d = 0; d < q; ++d) if (v[d].l == l && v[d].which == v[q].which) deadBefore = true; } } }
+  for (int i = 0; i < g.NE; ++i) { EmM* e = g.em[i]; if (!e || !e->live) continue; for (int sig = 0; sig < MAXS; ++sig) if (e->depth[sig] > 0) { const Vec<Rec>& v = e->recs[sig]; for (size_t q = 0; q < v.n; ++q) if (v[q].live && v[q].l == l) { connEmitting = true; for (size_t d = 0; d < q; ++d) if (v[d].l == l && v[d].which == v[q].which) deadBefore = true; } } }
   if (deadBefore && excluded(KEY_LDESTROY)) { cnt("excluded_trigger_avoided"); return; }
   setctxf("Listener.destroy/%s", g.frames.n == 0 ? "quiescent" : connEmitting ? "connected-signal-emitting" : "in-slot");
+  bool twin = false;   // one of its slots is connected to two signals of one emitter
+  for (int i = 0; i < g.NE; ++i) { EmM* e = g.em[i]; if (!e || !e->live) continue; for (int sig = 0; sig < MAXS; ++sig) { const Vec<Rec>& v = e->recs[sig]; for (size_t q = 0; q < v.n; ++q) if (v[q].live && v[q].l == l && liveOnOtherSignals(e, sig, l, v[q].which)) twin = true; } }
   histf("delete L%d%s%s", l->idx, own ? "   # the listener whose slot is running" : "", pending ? "   # has slots pending in an emission" : "");
   ++g.clock;
-  for (int i = 0; i < g.NE; ++i) { EmM* e = g.em[i]; if (!e || !e->live) continue; for (int sig = 0; sig < 2; ++sig) { Vec<Rec>& v = e->recs[sig]; for (size_t q = 0; q < v.n; ++q) if (v[q].live && v[q].l == l) { v[q].live = false; v[q].why = W_LISTENER_DESTROYED; v[q].diedAt = g.clock; } } }
+  for (int i = 0; i < g.NE; ++i) { EmM* e = g.em[i]; if (!e || !e->live) continue; for (int sig = 0; sig < MAXS; ++sig) { Vec<Rec>& v = e->recs[sig]; for (size_t q = 0; q < v.n; ++q) if (v[q].live && v[q].l == l) { v[q].live = false; v[q].why = W_LISTENER_DESTROYED; v[q].diedAt = g.clock; } } }
   l->live = false;
   Li* obj = l->obj; l->obj = 0;
   delete obj;
-  for (int i = 0; i < g.NE; ++i) { EmM* e = g.em[i]; if (!e || !e->live) continue; for (int sig = 0; sig < 2; ++sig) if (e->depth[sig] == 0) { Vec<Rec>& v = e->recs[sig]; size_t k = 0; for (size_t q = 0; q < v.n; ++q) if (v[q].live) { if (k != q) v[k] = v[q]; ++k; } while (v.n > k) v.pop(); } }
+  for (int i = 0; i < g.NE; ++i) { EmM* e = g.em[i]; if (!e || !e->live) continue; for (int sig = 0; sig < MAXS; ++sig) if (e->depth[sig] == 0) { Vec<Rec>& v = e->recs[sig]; size_t k = 0; for (size_t q = 0; q < v.n; ++q) if (v[q].live) { if (k != q) v[k] = v[q]; ++k; } while (v.n > k) v.pop(); } }
   cnt("op_destroy_listener"); if (g.frames.n) cnt(own ? "op_destroy_listener_in_own_slot" : "op_destroy_listener_in_other_slot"); if (pending) cnt("op_destroy_listener_with_pending_slots");
   if (deadBefore) cnt("op_destroy_listener_behind_other_record_of_same_slot");
+  if (twin) cnt("destroy_listener_same_slot_on_two_signals_of_one_emitter");
   g.fp = mix(g.fp, 14 + (u64)l->idx * 31 + (u64)depthNow() * 1000);
   diagnose();
 }
@@ -490,11 +555,14 @@ static void actDestroyE(EmM* e) {
   setctxf("Emitter.destroy/%s", g.frames.n == 0 ? "quiescent" : emitting ? "while-emitting" : "inside-slot-of-other-emitter");
   histf("delete E%d%s", e->idx, emitting ? "   # is emitting" : "");
   ++g.clock;
-  for (int sig = 0; sig < 2; ++sig) { Vec<Rec>& v = e->recs[sig]; for (size_t q = 0; q < v.n; ++q) if (v[q].live) { v[q].live = false; v[q].why = W_EMITTER_DESTROYED; v[q].diedAt = g.clock; } }
+  bool twin = false; int depthSum = 0;
+  for (int sig = 0; sig < MAXS; ++sig) { depthSum += e->depth[sig]; const Vec<Rec>& v = e->recs[sig]; for (size_t q = 0; q < v.n; ++q) if (v[q].live && liveOnOtherSignals(e, sig, v[q].l, v[q].which)) twin = true; }
+  if (twin) cnt("destroy_emitter_same_slot_on_two_signals_of_one_emitter");
+  for (int sig = 0; sig < MAXS; ++sig) { Vec<Rec>& v = e->recs[sig]; for (size_t q = 0; q < v.n; ++q) if (v[q].live) { v[q].live = false; v[q].why = W_EMITTER_DESTROYED; v[q].diedAt = g.clock; } }
   e->live = false;
   Em* obj = e->obj; e->obj = 0;
   delete obj;
-  cnt("op_destroy_emitter"); if (emitting) { cnt("op_destroy_emitter_while_emitting"); if (e->depth[0] + e->depth[1] > 1) cnt("op_destroy_emitter_with_nested_emissions"); } else if (g.frames.n) cnt("op_destroy_emitter_in_slot");
+  cnt("op_destroy_emitter"); if (emitting) { cnt("op_destroy_emitter_while_emitting"); if (depthSum > 1) cnt("op_destroy_emitter_with_nested_emissions"); } else if (g.frames.n) cnt("op_destroy_emitter_in_slot");
   g.fp = mix(g.fp, 15 + (u64)e->idx * 7 + (u64)depthNow() * 1000);
   diagnose();
 }
@@ -508,26 +576,41 @@ static void actCreateL(int idx) {
   g.fp = mix(g.fp, 16 + (u64)idx);
   diagnose();
 }
+// which of the 18 signal members stand behind this emitter object's signal indexes (pairwise distinct signal ids)
+static void drawSignals(EmM* e) {
+  if (g.fixedAr >= 0) {
+    e->sid[0] = g.fixedAr * 2; e->sid[1] = g.fixedTwin ? g.fixedAr * 2 + 1 : ((g.fixedAr + 1) % NAR) * 2; e->sid[2] = ((g.fixedAr + 2) % NAR) * 2;
+  } else {
+    for (int s = 0; s < MAXS; ++s) {
+      // candidates: twins of earlier indexes whose twin is still free; fresh arities of the palette (then of all nine) not used by an earlier index
+      int tw[MAXS], ntw = 0, fr[NAR], nfr = 0;
+      for (int q = 0; q < s; ++q) { bool used = false; for (int t = 0; t < s; ++t) if (e->sid[t] == (e->sid[q] ^ 1)) used = true; if (!used) tw[ntw++] = e->sid[q] ^ 1; }
+      for (int pass = 0; pass < 2 && !nfr && !(pass && ntw); ++pass)   // the palette is exhausted: a twin if there is one, otherwise any of the nine arities
+        for (int i = 0; i < (pass ? NAR : g.npal); ++i) { int a = pass ? i : g.pal[i]; bool used = false; for (int t = 0; t < s; ++t) if (e->sid[t] / 2 == a) used = true; if (!used) fr[nfr++] = a; }
+      if (ntw && (!nfr || g.r.chance((u32)g.twinNum, 4))) e->sid[s] = tw[g.r.below((u64)ntw)];
+      else e->sid[s] = fr[g.r.below((u64)nfr)] * 2 + (int)g.r.below(2);
+    }
+  }
+  for (int s = 0; s < MAXS; ++s) { e->ar[s] = e->sid[s] / 2; for (int t = 0; t < s; ++t) if (e->sid[t] == e->sid[s]) harnessBug("drawSignals: signal id %d drawn twice", e->sid[s]); }
+}
 static void actCreateE(int idx) {
   CtxScope cs;
   setctxf("Emitter.create/%s", g.frames.n == 0 ? "quiescent" : "in-slot");
-  EmM* e = new EmM; e->idx = idx; e->gen = ++g.gen; e->live = true; e->depth[0] = e->depth[1] = 0; e->outerStart[0] = e->outerStart[1] = 0;
-  // which of the nine signals stand behind this emitter object's two signal indexes
-  if (g.fixedAr >= 0) { e->ar[0] = g.fixedAr; e->ar[1] = (g.fixedAr + 1) % NAR; }
-  else { e->ar[0] = (int)g.r.below(NAR); e->ar[1] = (e->ar[0] + 1 + (int)g.r.below(NAR - 1)) % NAR; }
-  histf("E%d = new emitter   # signals %s, %s", idx, SN(e, 0), SN(e, 1));
+  EmM* e = new EmM; e->idx = idx; e->gen = ++g.gen; e->live = true; for (int s = 0; s < MAXS; ++s) { e->depth[s] = 0; e->outerStart[s] = 0; }
+  drawSignals(e);
+  histf("E%d = new emitter   # signals %s, %s, %s", idx, SN(e, 0), SN(e, 1), SN(e, 2));
   e->obj = new Em(e->gen);
   g.allE.push(e); g.em[idx] = e; cnt("op_create_emitter");
-  g.fp = mix(g.fp, 17 + (u64)idx + (u64)e->ar[0] * 100 + (u64)e->ar[1] * 1000);
+  g.fp = mix(g.fp, 17 + (u64)idx + (u64)e->sid[0] * 100 + (u64)e->sid[1] * 10000 + (u64)e->sid[2] * 1000000);
   diagnose();
 }
 
 // ------------------------------------------------------------------------------------------------ action generator
 static bool pickLiveRec(EmM*& e, int& sig, LiM*& l, int& which) {
-  size_t total = 0; for (int i = 0; i < g.NE; ++i) if (g.em[i] && g.em[i]->live) for (int s = 0; s < 2; ++s) total += liveCount(g.em[i], s);
+  size_t total = 0; for (int i = 0; i < g.NE; ++i) if (g.em[i] && g.em[i]->live) for (int s = 0; s < MAXS; ++s) total += liveCount(g.em[i], s);
   if (!total) return false;
   size_t k = (size_t)g.r.below(total);
-  for (int i = 0; i < g.NE; ++i) if (g.em[i] && g.em[i]->live) for (int s = 0; s < 2; ++s) { const Vec<Rec>& v = g.em[i]->recs[s]; for (size_t q = 0; q < v.n; ++q) if (v[q].live) { if (k-- == 0) { e = g.em[i]; sig = s; l = v[q].l; which = v[q].which; return true; } } }
+  for (int i = 0; i < g.NE; ++i) if (g.em[i] && g.em[i]->live) for (int s = 0; s < MAXS; ++s) { const Vec<Rec>& v = g.em[i]->recs[s]; for (size_t q = 0; q < v.n; ++q) if (v[q].live) { if (k-- == 0) { e = g.em[i]; sig = s; l = v[q].l; which = v[q].which; return true; } } }
   return false;
 }
 
@@ -579,7 +662,11 @@ static void randomAction(const SlotCtx* sc) {
   case K_FOCUS_DESTROY_E: if (fe) actDestroyE(fe); break;
   case K_FOCUS_EMIT: if (fe && canEmit) actEmit(fe, fs); break;
   case K_FOCUS_CONNECT: if (fe && fl && liveCount(fe, fs) < 10) {
-      int m = (int)g.r.below(3);
+      int m = (int)g.r.below(4);
+      if (m == 3) {   // the same listener slot to another signal of the same emitter that has the same arity (twin signal), if this emitter object has one
+        int c[MAXS], n = 0; for (int s2 = 0; s2 < MAXS; ++s2) if (s2 != fs && fe->ar[s2] == fe->ar[fs] && liveCount(fe, s2) < 10) c[n++] = s2;
+        if (n) actConnect(fe, c[g.r.below((u64)n)], fl, fw); else m = 0;
+      }
       if (m == 0) actConnect(fe, fs, fl, fw);                         // the same slot again (duplicate, or re-connect after a disconnect)
       else if (m == 1) actConnect(fe, fs, fl, (int)g.r.below(2));     // this listener, either slot (may exceed NW on purpose)
       else { LiM* l = randLiveL(); if (l) actConnect(fe, fs, l, fw); }
@@ -620,7 +707,8 @@ static void onSlot(void* self, int arity, int which, const long* vals) {
   g.frames[fi].pos = p + 1; ++g.frames[fi].invoked;
   for (int a = 0; a < arity; ++a) if (vals[a] != argVal(g.frames[fi].arg, a))
     fail("Emitter.emit/argument/value", "slot L%d.%s received %ld as argument #%d of %d, the emission passed %ld", l->idx, LN(e, sig, which), vals[a], a, arity, argVal(g.frames[fi].arg, a));
-  arEv(arity, AE_INVOKED); arEv(arity, AE_ARGUMENTS_COMPARED, arity);
+  arEv(arity, AE_INVOKED); arEv(arity, AE_ARGUMENTS_COMPARED, arity); sgEv(e->sid[sig], SE_INVOKED);
+  if (liveOnOtherSignals(e, sig, l, which)) cnt("invoked_slot_also_on_other_signal_of_emitter");
   cnt("invocations_matched");
   // ---- nested actions, drawn from the same stream
   SlotCtx sc; sc.e = e; sc.sig = sig; sc.l = l; sc.which = which;
@@ -634,7 +722,7 @@ static void onSlot(void* self, int arity, int which, const long* vals) {
 static void resetCase() {
   for (int i = 0; i < MAXE; ++i) g.em[i] = 0;
   for (int i = 0; i < MAXL; ++i) g.li[i] = 0;
-  g.frames.clear(); g.serial = 1; g.clock = 1; g.gen = 0; g.argSeq = 1000; g.fp = 0; g.invocations = 0; g.nestedActions = 0; g.maxDepthSeen = 0; g.script = 0; g.fixedAr = -1; g.suspect = false; g.topAction = "setup";
+  g.frames.clear(); g.serial = 1; g.clock = 1; g.gen = 0; g.argSeq = 1000; g.fp = 0; g.invocations = 0; g.nestedActions = 0; g.maxDepthSeen = 0; g.script = 0; g.fixedAr = -1; g.fixedTwin = false; g.npal = NAR; for (int i = 0; i < NAR; ++i) g.pal[i] = i; g.twinNum = 2; g.suspect = false; g.topAction = "setup";
   g.NE = 1; g.NL = 1; g.NS = 2; g.NW = 2; g.maxDepth = 4; g.nestNum = 0; g.nestDen = 1; g.slotBudget = 0;
   for (int i = 0; i < NKINDS; ++i) g.w[i] = 1;
   ElemReg::reset();
@@ -672,7 +760,9 @@ static void randomPrograms() {
     bool tiny = r.chance(1, 4);   // dense universe: everything happens to the same one or two connections
     g.NE = tiny ? (int)r.range(1, 2) : (int)r.range(2, 3);
     g.NL = tiny ? (int)r.range(1, 2) : (int)r.range(2, 4);
-    g.NS = tiny ? 1 : (int)r.range(1, 2);
+    g.NS = tiny ? (r.chance(1, 3) ? 2 : 1) : (int)r.range(1, MAXS);
+    g.twinNum = tiny ? (int)r.range(2, 4) : (int)r.range(0, 4);   // chance/4 that a signal index of an emitter object is the same-arity twin of an earlier one
+    if (r.chance(1, 2)) { g.npal = (int)r.range(2, 3); for (int i = 0; i < g.npal; ++i) { int j = i + (int)r.below((u64)(NAR - i)); int t = g.pal[i]; g.pal[i] = g.pal[j]; g.pal[j] = t; } }   // small palette of arities: emitters share arities
     g.NW = r.chance(1, 3) ? 1 : 2;
     g.maxDepth = r.chance(3, 4) ? 4 : (int)r.range(1, 3);
     { int c = (int)r.below(4); g.nestNum = c == 0 ? 1 : c == 1 ? 1 : c == 2 ? 2 : 9; g.nestDen = c == 0 ? 8 : c == 1 ? 3 : c == 2 ? 3 : 10; }
@@ -682,7 +772,7 @@ static void randomPrograms() {
     if (r.chance(1, 2)) { g.w[K_DESTROY_E] = (g.w[K_DESTROY_E] + 2) / 3; g.w[K_FOCUS_DESTROY_E] = (g.w[K_FOCUS_DESTROY_E] + 2) / 3; }
     if (g.w[K_DESTROY_L] + g.w[K_DESTROY_E] + g.w[K_FOCUS_DESTROY_L] + g.w[K_FOCUS_DESTROY_E] && !g.w[K_RECREATE]) g.w[K_RECREATE] = 2;
     int ntop = (int)r.range(6, r.chance(1, 6) ? 80 : 30);
-    hist.addf("# C12 random program: emitters=%d listeners=%d signals/emitter=%d (arities drawn per emitter object) slots/signal=%d maxdepth=%d nest=%d/%d budget=%ld top-level actions=%d\n# weights:", g.NE, g.NL, g.NS, g.NW, g.maxDepth, g.nestNum, g.nestDen, g.slotBudget, ntop);
+    hist.addf("# C12 random program: emitters=%d listeners=%d signals/emitter=%d (drawn per emitter object: twin chance %d/4, %d arities in the palette) slots/signal=%d maxdepth=%d nest=%d/%d budget=%ld top-level actions=%d\n# weights:", g.NE, g.NL, g.NS, g.twinNum, g.npal, g.NW, g.maxDepth, g.nestNum, g.nestDen, g.slotBudget, ntop);
     for (int i = 0; i < NKINDS; ++i) hist.addf(" %s=%d", KINDN[i], g.w[i]);
     hist.add("\n");
     top("setup");
@@ -802,6 +892,30 @@ static void scenario(int which, int arity) {
   cnt("scripted_scenarios");
 }
 
+// twin-signal scenarios: slot a of L0 is connected to BOTH same-arity signals of E0 (first sigK, then sigKb), then the connection made later is disconnected
+// (variant 0: at top level, then both signals are emitted, L0 is deleted, both are emitted again; variant 1: by L0's own slot during the emission of sigK,
+// which then deletes its listener; variant 2: at top level, then the emitter is deleted before the listener)
+static void scriptTwinDiscDelete(const SlotCtx& sc) { if (s_step++ == 0) { actDisconnect(sc.e, 1, sc.l, sc.which); actDestroyL(sc.l, true); } }
+static void scenarioTwin(int variant, int arity) {
+  resetCase(); g.NE = 1; g.NL = 2; s_step = 0; g.fixedAr = arity; g.fixedTwin = true;
+  hist.addf("# C12 scripted twin-signal scenario %d, arity %d\n", variant, arity);
+  top("setup"); actCreateE(0); actCreateL(0); actCreateL(1);
+  EmM* e = g.em[0];
+  actConnect(e, 0, g.li[0], 0); actConnect(e, 1, g.li[0], 0); actConnect(e, 0, g.li[1], 0); actConnect(e, 1, g.li[1], 0);
+  quiescentCheck();
+  top("emit"); actEmit(e, 0); quiescentCheck(); actEmit(e, 1); quiescentCheck();
+  if (variant == 1) { g.script = scriptTwinDiscDelete; top("emit"); actEmit(e, 0); quiescentCheck(); g.script = 0; }
+  else { top("disconnect"); actDisconnect(e, 1, g.li[0], 0); quiescentCheck(); }
+  top("emit"); actEmit(e, 0); quiescentCheck(); actEmit(e, 1); quiescentCheck();
+  if (variant == 2) { top("destroy-emitter"); actDestroyE(e); quiescentCheck(); }
+  else {
+    if (g.li[0]->live) { top("destroy-listener"); actDestroyL(g.li[0], false); quiescentCheck(); }
+    top("emit"); actEmit(e, 0); quiescentCheck(); actEmit(e, 1); quiescentCheck();
+  }
+  destroyEverything();
+  cnt("scripted_scenarios"); cnt("scripted_twin_signal_scenarios");
+}
+
 static int probe(const char* key) {
   beginCase(-1);
   if (!strcmp(key, KEY_DISC)) { for (int k = 0; k < NAR; ++k) { scenario(0, k); scenario(2, k); } return 0; }
@@ -821,6 +935,7 @@ int main(int argc, char** argv) {
       for (int k = 0; k < NAR; ++k) {
         if (!excluded(KEY_DISC)) { scenario(0, k); scenario(2, k); }
         if (!excluded(KEY_LDESTROY)) scenario(1, k);
+        for (int v = 0; v < 3; ++v) scenarioTwin(v, k);
       }
       endCase(1, true);
     }
@@ -830,6 +945,7 @@ int main(int argc, char** argv) {
     exhaustivePrograms(opts.mode[3] - '0', opts.mode[4] - '0', opts.mode[5] == 'x');
   else harnessBug("unknown mode %s", opts.mode);
   flushArityStats();
+  cnt("listener_walks_of_slot_on_two_signals_of_one_emitter", g_twinStatesWalked);
   leakCheck("Callback/leak");
   finish();
   return 0;
